@@ -65,6 +65,9 @@ class Generated:
         self.includes = []
         self.types = []
         self.reach = []
+        self.n_inserts = 0
+        self.probe_line = None
+        self.probe_desc = None
 
     @property
     def text(self):
@@ -112,7 +115,7 @@ def _split_clauses(spec_text):
     return clauses
 
 
-def assemble(unit_dir, repo, vacuity=False, variables=None):
+def assemble(unit_dir, repo, vacuity=False, variables=None, probe_insert=None):
     """returns Generated.  vacuity=True replaces every `ensures` of functions with a `requires`
     by `ensures false` (the must-fail reachability variant)."""
     g = Generated()
@@ -258,7 +261,7 @@ def assemble(unit_dir, repo, vacuity=False, variables=None):
                         cur.append(lines[i])
                     i += 1
                 i += 1
-                _emit_fn(g, source, a, blocks, vacuity)
+                _emit_fn(g, source, a, blocks, vacuity, probe_insert)
                 continue
             g.lines.append(l)
             i += 1
@@ -273,7 +276,7 @@ def assemble(unit_dir, repo, vacuity=False, variables=None):
     return g
 
 
-def _emit_fn(g, source, a, blocks, vacuity):
+def _emit_fn(g, source, a, blocks, vacuity, probe_insert=None):
     f = Fn()
     f.file, f.item = a["file"], a["item"]
     f.name = a.get("name") or (f.file.split("/")[-1].replace(".rs", "") + "::" + f.item.split("/")[-1].strip().replace("fn ", ""))
@@ -431,6 +434,11 @@ def _emit_fn(g, source, a, blocks, vacuity):
         rules.append((ra.get("rule", "R9"), f"replace `{ra['pattern']}` -> `{norm(rep)[:200]}`"))
     for ia in blocks["inserts"]:
         txt = "\n" + "\n".join(ia["text"]) + "\n"
+        if "assert" in txt or "proof" in txt:
+            if probe_insert is not None and g.n_inserts == probe_insert:
+                txt += "assert(false); // REACH-PROBE\n"
+                g.probe_desc = f.name + " @ " + " ".join(f"{k}={v}" for k, v in ia.items() if k != "text")
+            g.n_inserts += 1
         nth = int(ia.get("nth", 1))
         if "loop_start" in ia or "loop_end" in ia:
             # anchored on the n-th loop of the function, whatever its header looks like
